@@ -12,6 +12,7 @@ using namespace ob;
 template <class K, size_t R>
 void ob_c01_strides(const mk_t<K,size_t,R>& s)
 {
+    assume_len<R>(s);
     auto st = ix::compute_strides(s);
     OBLIGE("C01.O1.len", (size_t)nm::len(st)==R, kid<K>, R);
     for_<R>([&](auto I){
@@ -24,6 +25,7 @@ void ob_c01_strides(const mk_t<K,size_t,R>& s)
 template <class K, size_t R>
 void ob_c01_stride_k(const mk_t<K,size_t,R>& s, size_t k)
 {
+    assume_len<R>(s);
     ASSUME(k < R);
     for_<R>([&](auto I){
         if (k == I.value) {
@@ -38,6 +40,7 @@ void ob_c01_stride_k(const mk_t<K,size_t,R>& s, size_t k)
 template <class K, size_t R>
 void ob_c01_offset(const mk_t<K,size_t,R>& idx, const mk_t<K,size_t,R>& st)
 {
+    assume_len<R>(idx); assume_len<R>(st);
     nm_size_t e = 0;
     for_<R>([&](auto I){ e += (nm_size_t)rd<I.value>(idx) * (nm_size_t)rd<I.value>(st); });
     auto off = ix::compute_offset(idx,st);
@@ -47,6 +50,7 @@ void ob_c01_offset(const mk_t<K,size_t,R>& idx, const mk_t<K,size_t,R>& st)
 template <class K, size_t R>
 void ob_c01_indices(size_t off, const mk_t<K,size_t,R>& s)
 {
+    assume_len<R>(s);
     for_<R>([&](auto I){ ASSUME(rd<I.value>(s) >= 1); });
     auto ind = ix::compute_indices(off,s);
     OBLIGE("C01.O3.len", (size_t)nm::len(ind)==R, kid<K>, R);
@@ -61,6 +65,7 @@ void ob_c01_indices(size_t off, const mk_t<K,size_t,R>& s)
 template <class K, size_t R>
 void ob_c01_ndindex(size_t off, const mk_t<K,size_t,R>& s)
 {
+    assume_len<R>(s);
     for_<R>([&](auto I){ ASSUME(rd<I.value>(s) >= 1); });
     auto nd = ix::ndindex(s);
     size_t n = 1;
@@ -78,6 +83,7 @@ void ob_c01_ndindex(size_t off, const mk_t<K,size_t,R>& s)
 template <class K, size_t R>
 void ob_c01_product_reverse(const mk_t<K,size_t,R>& s)
 {
+    assume_len<R>(s);
     size_t n = 1;
     for_<R>([&](auto I){ n *= (size_t)rd<I.value>(s); });
     OBLIGE("C01.O6.product", (size_t)ix::product(s)==n, kid<K>, R);
@@ -103,7 +109,7 @@ void ob_c01_negctl(const mk_t<K,size_t,R>& s)
   template void ob_c01_ndindex<K,R>(size_t, const mk_t<K,size_t,R>&); \
   template void ob_c01_product_reverse<K,R>(const mk_t<K,size_t,R>&);
 #define INSTK(K) INST(K,1) INST(K,2) INST(K,3) INST(K,4)
-INSTK(k_std) INSTK(k_utl) INSTK(k_tup)
+INSTK(k_std) INSTK(k_utl) INSTK(k_tup) INSTK(k_sv)
 template void ob_c01_negctl<k_std,2>(const mk_t<k_std,size_t,2>&);
 #ifdef VERIF_THOROUGH
 INST(k_std,5) INST(k_std,6) INST(k_utl,5) INST(k_utl,6) INST(k_tup,5) INST(k_tup,6)
